@@ -168,6 +168,36 @@ theorem reader_schedule_independent (hs : SplitIndep prod) (clamp clamp' : Nat) 
     reader_keepgoing hs clamp' hclamp' t' block' r' hwb' n, hsrc]
   exact ⟨rfl, rfl⟩
 
+/-- **Any judge** (any `FnMut` closure: the verdict may depend on everything the
+judge has been asked before), provided it never answers `SkipRecord` for an
+empty range (`JudgeOK`; see the last example of this file for what happens
+otherwise): no call ever panics or fails — all five assertions of
+`next_record_bytes` and both of `pump` are unreachable — and the records
+returned before the first `None` are, in order, a sub-list of what the
+always-KeepGoing judge returns: a judge can only drop records (or stop), never
+alter one or make up one.  (After a `Stop` verdict the reader may be in the
+middle of a record, so nothing is claimed about records returned after the first
+`None`; with `chunk_judge` there are none, by `reader_std_judge`.) -/
+theorem reader_generic_judge (hs : SplitIndep prod) (clamp : Nat) (hclamp : 2 ≤ clamp) (t : Tuning)
+    (block : Option Nat) (judge : Judge) (hj : JudgeOK judge) (r : Reader) (hwb : WellBehaved r) (n : Nat) :
+    (leading (nextSeq clamp t prod judge block n RdState.new r).1).Sublist (recordsAll prod (segments r.src)) ∧
+    ∀ res ∈ (nextSeq clamp t prod judge block n RdState.new r).1, res = .none ∨ ∃ d a b, res = .some d a b :=
+  g_nextSeq_spec prod clamp hclamp t block hs judge hj n RdState.new r hwb
+
+/-- `chunk_judge` and the always-KeepGoing judge satisfy `JudgeOK`… -/
+theorem std_judges_ok (maxSize : Nat) (limit : Option Nat) :
+    JudgeOK keepGoingJudge ∧
+    ∀ h c, c.size = 0 → chunkJudge maxSize limit h c ≠ .skipRecord := by
+  refine ⟨fun h c _ => by simp [keepGoingJudge], fun h c hc => ?_⟩
+  simp only [chunkJudge, hc]
+  split
+  · simp
+  · simp
+
+/-- The block-size clamp of the code as it is now satisfies the side condition
+`2 ≤ clamp` of every theorem here (finding F1 is the case `clamp = 1`). -/
+theorem clamp_in_code : 2 ≤ Woodpile.Gen.minBlock := by decide
+
 /-! ### Resynchronisation -/
 
 /-- A delimiter-free piece between two delimiters is a segment of the stream,
@@ -238,6 +268,11 @@ example : (nextSeq 2 tun prod (chunkJudge 1 none) (some 3) 4 RdState.new demoRea
 example : (nextSeq 2 tun prod (chunkJudge 9 (some 4)) (some 3) 3 RdState.new demoReader).1 =
     [.some [0x61] 0 2, .none, .none] := by decide +kernel
 example : recordsStd prod 9 (some 4) (segments demo) = [([0x61], 0, 2)] := by decide +kernel
+-- A judge that answers SkipRecord for the empty range it is shown after a leading delimiter
+-- (`FE FD 01 61`, second consultation would come after the data chunk): the real code fails
+-- `assert_eq!(range.is_empty(), state == State::SkipSentinel)`, and so does the model.
+example : (nextSeq 2 tun prod (listJudge [.skipRecord]) (some 3) 1 RdState.new
+    ⟨[0xFE, 0xFD, 0x01, 0x61], [.deliver 4]⟩).1 = [.panic] := by decide +kernel
 -- `last_sentinel_offset` after the second record ("bc", ended by the delimiter at 7).
 example : (nextSeq 2 tun prod keepGoingJudge none 2 RdState.new demoReader).2.1.lastSentinel = 7 := by
   decide +kernel
